@@ -4,7 +4,11 @@
 
 use super::mailbox;
 use crate::internal::left_right;
+#[cfg(not(all(excsn_fibre_verif, not(loom))))]
 use papaya::HashMap;
+// Verification seam H11: the same papaya map, every operation preceded by a scheduling point.
+#[cfg(all(excsn_fibre_verif, not(loom)))]
+use super::verif_map::HashMap;
 use std::fmt;
 use std::hash::Hash;
 use std::sync::{
